@@ -23,6 +23,8 @@ func init() {
 			"Does not decide: the $n substitution arithmetic.",
 		Fixtures: []string{"regex", "guardcut"},
 		Variants: []Variant{
+			{Name: "params-substituted-ascending", File: pkgLite + "/forward.go",
+				Old: "\tfor i := len(groups); i >= 1; i-- {", New: "\tfor i := 1; i <= len(groups); i++ {", Expect: "param-substitution"},
 			{Name: "star-not-newline", File: pkgLite + "/match.go",
 				Old: "regexStr = \"(?s)^\" + strings.ReplaceAll(regexStr, \"\\\\?\", \"(.)\") + \"$\"", New: "regexStr = \"^\" + strings.ReplaceAll(regexStr, \"\\\\?\", \"(.)\") + \"$\"", Expect: "glob-language"},
 			{Name: "unanchored", File: pkgLite + "/match.go",
@@ -51,6 +53,8 @@ func init() {
 			"Does not decide: the order each strategy dictates or fairness of round-robin under concurrency.",
 		Fixtures: []string{"lockset", "guardcut"},
 		Variants: []Variant{
+			{Name: "counter-written-under-canonical-key", File: pkgLite + "/strategy.go",
+				Old: "\tdecrementStrategyCounter := sm.IncrementConnection(backend)", New: "\tdecrementStrategyCounter := sm.IncrementConnection(canonicalBackendAddress(backend))", Expect: "key-agreement"},
 			{Name: "no-termination-guard", File: pkgLite + "/forward.go",
 				Old: "\t\t\ttryBackends = nil\n", New: "\t\t\t_ = tryBackends\n", Expect: "once-per-attempt"},
 			{Name: "release-not-deferred", File: pkgLite + "/forward.go",
@@ -153,6 +157,7 @@ func recoverTpl(v ssa.Value, param ssa.Value, depth int) strTpl {
 }
 
 func runC29(c *Ctx) {
+	checkParamSubstitution(c)
 	fns := c.P.Funcs(Mod + "/" + pkgLite)
 	// the loader closure that compiles the regexp
 	nComp := 0
@@ -320,6 +325,7 @@ func runC30(c *Ctx) {
 	lc := NewLockCtx(c.P, scope)
 	checkGuarded(c, lc, scope, GuardSpec{Type: pkgLite + ":StrategyManager", Mutex: "activeConnectionsMu", Fields: []string{"activeConnections"}})
 	c.Floor("guarded", 5)
+	checkKeyAgreement(c, lc, scope, pkgLite+":StrategyManager", []string{"connectionCounters", "activeConnections", "latencyCache"})
 
 	// shared RNG
 	nRng := 0
